@@ -178,7 +178,7 @@ var (
 	numberFns   = []string{"ROW_NUMBER", "NTILE"}
 	valueFns    = []string{"FIRST_VALUE", "LAST_VALUE", "NTH_VALUE"}
 	lagFns      = []string{"LAG", "LEAD"}
-	aggFns      = []string{"COUNT", "SUM", "AVG", "MIN", "MAX", "MEDIAN", "USUM", "UHASH"}
+	aggFns      = []string{"COUNT", "SUM", "AVG", "MIN", "MAX", "MEDIAN", "USUM", "UHASH", "STDEV", "STDEVP", "VAR", "VARP"}
 	listFns     = []string{"LISTAGG", "JSON_AGG"}
 	strAlphabet = []string{"a", "b", "ab", "ba", "c", "x", "xa"}
 )
@@ -224,7 +224,7 @@ func isIn(s string, xs []string) bool {
 }
 
 var allFnNames = []string{"RANK", "DENSE_RANK", "CUME_DIST", "PERCENT_RANK", "ROW_NUMBER", "NTILE", "FIRST_VALUE", "LAST_VALUE", "NTH_VALUE",
-	"LAG", "LEAD", "COUNT", "SUM", "AVG", "MIN", "MAX", "MEDIAN", "USUM", "UHASH", "LISTAGG", "JSON_AGG", "COUNT_STAR"}
+	"LAG", "LEAD", "COUNT", "SUM", "AVG", "MIN", "MAX", "MEDIAN", "USUM", "UHASH", "LISTAGG", "JSON_AGG", "COUNT_STAR", "STDEV", "STDEVP", "VAR", "VARP"}
 
 func allFns() []string {
 	var fs []string
@@ -248,10 +248,23 @@ func genStr(t *rapid.T, label string) val.Val {
 }
 
 func genRows(t *rapid.T, large bool) [][]val.Val {
+	if large {
+		return genRowsMode(t, "large", false)
+	}
+	return genRowsMode(t, "small", false)
+}
+
+// genRowsMode: mode small (0-12 rows), medium (16-120 rows with up to 40 partition values: the partitions are
+// spread over several workers although the table is below the size at which per-record work is split) or
+// large (160-230 rows, few partitions); plainO1: the o1 column holds small integers only.
+func genRowsMode(t *rapid.T, mode string, plainO1 bool) [][]val.Val {
+	large := mode == "large"
 	var n int
 	switch {
 	case large:
 		n = intRange(t, "nLarge", 160, 230)
+	case mode == "medium":
+		n = intRange(t, "nMedium", 16, 120)
 	case chance(t, "emptyTable", 2):
 		n = 0
 	default:
@@ -269,6 +282,13 @@ func genRows(t *rapid.T, large bool) [][]val.Val {
 	if large {
 		npool = intRange(t, "p1PoolLarge", 2, 4)
 	}
+	if mode == "medium" {
+		pool = []val.Val{val.Null, val.Str("a")}
+		for k, nk := 0, intRange(t, "p1PoolMedium", 6, 40); k < nk; k++ {
+			pool = append(pool, val.Int(int64(k+1)))
+		}
+		npool = len(pool)
+	}
 	singlePct := 8
 	if large {
 		singlePct = 1
@@ -279,7 +299,7 @@ func genRows(t *rapid.T, large bool) [][]val.Val {
 	// spelled as strings), optionally mixed with floats of the same magnitude
 	var bigPool []int64
 	bigFloats := false
-	if m := uni(t, "o1Mode", 100); m < 25 {
+	if m := uni(t, "o1Mode", 100); m < 25 && !plainO1 {
 		bigFloats = m < 10
 		bigPool = genBigPool(t, bigFloats)
 	}
@@ -416,9 +436,22 @@ func genCPU(t *rapid.T, large bool) int {
 }
 
 func genCase(t *rapid.T) anaCase {
-	large := chance(t, "large", 15)
-	c := genCall(t, large, genRows(t, large), allFns())
+	mode := "small"
+	switch m := uni(t, "sizeMode", 100); {
+	case m < 15:
+		mode = "large"
+	case m < 27:
+		mode = "medium"
+	}
+	large := mode == "large"
+	c := genCall(t, large, genRowsMode(t, mode, false), allFns())
 	c.CPU = genCPU(t, large)
+	if mode == "medium" {
+		c.CPU = pick(t, "cpuMedium", []int{2, 3, 4, 4, 8})
+		if len(c.Partition) > 0 && !isIn("p1", c.Partition) && chance(t, "mediumP1", 75) {
+			c.Partition[0] = "p1"
+		}
+	}
 	return c
 }
 
@@ -483,6 +516,9 @@ func genCall(t *rapid.T, large bool, rows [][]val.Val, fns []string) anaCase {
 	}
 	if isIn(c.Fn, []string{"COUNT", "SUM", "AVG", "MEDIAN", "USUM"}) {
 		c.Distinct = chance(t, "distinct", 15)
+	}
+	if isIn(c.Fn, statFns) || isIn(c.Fn, listFns) {
+		c.Distinct = chance(t, "distinctExt", 30)
 	}
 	if c.Fn == "USUM" || c.Fn == "UHASH" {
 		c.Arg2 = pick(t, "arg2", []string{"", "2", "id"})
@@ -685,7 +721,7 @@ func fnSQL(c anaCase) string {
 	case "COUNT_STAR":
 		b.WriteString("COUNT(*)")
 	case "LISTAGG":
-		b.WriteString("LISTAGG(" + c.Arg)
+		b.WriteString("LISTAGG(" + dist + c.Arg)
 		if c.HasSep {
 			b.WriteString(", " + val.QuoteSQL(c.Sep))
 		}
@@ -916,6 +952,8 @@ func checkCase(c anaCase) (fw.Outcome, *fw.Violation) {
 		size = "empty"
 	} else if n >= 160 {
 		size = "large"
+	} else if n >= 13 {
+		size = "medium"
 	}
 	bigParts, singleParts := 0, 0
 	parts := ref.AnaPartitions(in.Part, n)
@@ -935,6 +973,9 @@ func checkCase(c anaCase) (fw.Outcome, *fw.Violation) {
 	}
 	if singleParts > 0 {
 		o.Classes = append(o.Classes, "has_single_row_partition")
+	}
+	if len(parts) >= 8 {
+		o.Classes = append(o.Classes, "partitions:8_or_more")
 	}
 	if c.IgnoreNulls {
 		o.Classes = append(o.Classes, "ignore_nulls")
@@ -977,6 +1018,14 @@ func checkCase(c anaCase) (fw.Outcome, *fw.Violation) {
 	if atomic.LoadInt64(&query.VerifParallelTasks) > par0 {
 		o.Classes = append(o.Classes, "ran_on_several_workers")
 		fw.AddExtra("queries_with_parallel_tasks", 1)
+		if n < 160 {
+			// below 160 rows per-record work runs on one goroutine: the partitions were divided among workers
+			o.Classes = append(o.Classes, "partitions_divided_among_workers_below_record_split_size")
+			fw.AddExtra("analytic/partitions_divided_among_workers_below_record_split_size", 1)
+			if len(parts) > c.CPU {
+				fw.AddExtra("analytic/worker_handles_several_partitions", 1)
+			}
+		}
 	}
 	if qerr != nil {
 		if c.Fn == "COUNT_STAR" {
@@ -1013,7 +1062,7 @@ func checkCase(c anaCase) (fw.Outcome, *fw.Violation) {
 		}
 		got[i] = r[len(cols)]
 	}
-	res := ref.AnalyticCheck(in, got)
+	res := analyticCheckIn(c, in, got)
 	if res.Sig != "" {
 		return o, fw.V(res.Sig, "%s\n  %s\n  rows(id,p1,p2,o1,o2,v,s)=%v", sql, res.Msg, clipRows(c.Rows))
 	}
@@ -1037,13 +1086,15 @@ func TestC17Analytic(t *testing.T) {
 	fw.Run(t, fw.Spec[anaCase]{
 		ID: "C17", Name: "analytic", Quick: 24000, Thorough: 480000,
 		Gen: genCase, Check: checkCase,
-		Rule: "temporary table (unique id, partition columns with few values + NULL + single-row partitions, order columns with ties and NULLs, integer and string value columns with NULLs; 15% of tables have 160-230 rows and run with --cpu 2-4) x one analytic call (ROW_NUMBER, RANK, DENSE_RANK, CUME_DIST, PERCENT_RANK, NTILE, FIRST/LAST/NTH_VALUE [IGNORE NULLS], LAG/LEAD [offset, default, IGNORE NULLS], COUNT/SUM/AVG/MIN/MAX/MEDIAN [DISTINCT], LISTAGG, JSON_AGG, two user-defined aggregates) OVER (PARTITION BY 0-2, ORDER BY 0-2 [+id], ROWS frames of the documented grammar); the result column is compared by id with a reference evaluator written from the manual, the other columns and the row count must be unchanged; non-trivial = at least two partitions with two or more rows and (ties under the user ORDER BY items or a bounded frame); distinct by (function, #partition items, #order items, id key, frame shape, ties, IGNORE NULLS, DISTINCT)",
+		Rule: "temporary table (unique id, partition columns with few values + NULL + single-row partitions, order columns with ties and NULLs, integer and string value columns with NULLs; 15% of tables have 160-230 rows with 2-4 partition values and run with --cpu 2-4; 12% have 16-120 rows with up to 42 partition values and run with --cpu 2-8, so that the partitions are divided among workers that each handle several of them although per-record work is not split below 160 rows) x one analytic call (ROW_NUMBER, RANK, DENSE_RANK, CUME_DIST, PERCENT_RANK, NTILE, FIRST/LAST/NTH_VALUE [IGNORE NULLS], LAG/LEAD [offset, default, IGNORE NULLS], COUNT/SUM/AVG/MIN/MAX/MEDIAN/STDEV/STDEVP/VAR/VARP [DISTINCT], LISTAGG / JSON_AGG [DISTINCT], two user-defined aggregates) OVER (PARTITION BY 0-2, ORDER BY 0-2 [+id], ROWS frames of the documented grammar); the result column is compared by id with a reference evaluator written from the manual, the other columns and the row count must be unchanged; non-trivial = at least two partitions with two or more rows and (ties under the user ORDER BY items or a bounded frame); distinct by (function, #partition items, #order items, id key, frame shape, ties, IGNORE NULLS, DISTINCT)",
 		Assumptions: []string{
 			"partition and order key values are small integers, lowercase non-numeric strings and NULL; an order column holds one type",
 			"order-dependent functions (FIRST/LAST/NTH_VALUE, LAG, LEAD, aggregates with ORDER BY, LISTAGG, JSON_AGG, the order-dependent user aggregate) get id as last ORDER BY item; without any ORDER BY they are only checked order-independently (membership / multiset)",
 			"open outcomes accepted: PERCENT_RANK of a one-row partition (0 or 1, consistently); FIRST/LAST/NTH_VALUE with ORDER BY but no windowing clause (whole partition or up to the current row); LAG/LEAD IGNORE NULLS (offset-th non-null row, or the row at the offset else the nearest non-null beyond it)",
 			"an ORDER BY item without direction sorts ascending with NULLs first (manual: ASC is the default; NULLS FIRST is the default for ASC)",
 			"a frame whose low bound lies after its high bound is empty: COUNT 0, other aggregates and value functions NULL",
+			"STDEV / STDEVP / VAR / VARP: NULL when the frame has no non-null value (manual); sample statistics of a single value are undefined (NULL, 0 or NaN accepted); compared with relative tolerance 1e-9",
+			"LISTAGG / JSON_AGG (DISTINCT ...) with a unique order: the distinct values in the order of their first or of their last occurrence; without it the set of distinct values",
 			fmt.Sprintf("generator keeps away from reported defects while these are true: avoidKnownCountStarOver=%v avoidKnownLastValueMirrored=%v avoidKnownNthValueBeyondFrame=%v avoidKnownFrameNegativeCapPanic=%v", avoidKnownCountStarOver, avoidKnownLastValueMirrored, avoidKnownNthValueBeyondFrame, avoidKnownFrameNegativeCapPanic),
 		},
 	})
